@@ -93,9 +93,9 @@ WRAP_AVX512 = ["load_avx512", "load_avx512_a", "store_avx512", "store_avx512_a",
 MODULES += [
     {"name": "WrapBatch", "sigs": True, "scalar_alias": True, "ns": "Gen.WrapBatch", "imports": VEC_IMPORTS, "needs_globals": True,
      "roots": [("Goldilocks", n) for n in WRAP_BATCH]},
-    {"name": "WrapAvx2", "sigs": True, "scalar_alias": True, "ns": "Gen.WrapAvx2", "imports": VEC_IMPORTS + ["GoldilocksVerif.Gen.Avx2", "GoldilocksVerif.Gen.Avx2Mat"], "needs_globals": True,
+    {"name": "WrapAvx2", "sigs": True, "scalar_alias": True, "reg_alias": True, "ns": "Gen.WrapAvx2", "imports": VEC_IMPORTS + ["GoldilocksVerif.Gen.Avx2", "GoldilocksVerif.Gen.Avx2Mat"], "needs_globals": True,
      "roots": [("Goldilocks", n) for n in WRAP_AVX2]},
-    {"name": "WrapAvx512", "sigs": True, "scalar_alias": True, "ns": "Gen.WrapAvx512", "imports": VEC_IMPORTS + ["GoldilocksVerif.Gen.Avx512", "GoldilocksVerif.Gen.Avx512Mat", "GoldilocksVerif.Gen.PosAvx512"], "needs_globals": True,
+    {"name": "WrapAvx512", "sigs": True, "scalar_alias": True, "reg_alias": True, "ns": "Gen.WrapAvx512", "imports": VEC_IMPORTS + ["GoldilocksVerif.Gen.Avx512", "GoldilocksVerif.Gen.Avx512Mat", "GoldilocksVerif.Gen.PosAvx512"], "needs_globals": True,
      "roots": [("Goldilocks", n) for n in WRAP_AVX512]},
 ]
 
